@@ -19,6 +19,9 @@ def run(ctx):
     th = ctx.thorough
     r = ctx.tlc("grammar-class", "mc/MC_Grammar.tla", "mc/MC_Grammar_class.cfg", {"K": 5 if th else 4}, min_states=30000, timeout=3400, heap="14g")
     ctx.replay("ranges-replay", "ranges", r["dump"], min_cases=2000)
+    r = ctx.tlc("grammar-random", "mc/MC_GrammarRandom.tla", "mc/MC_GrammarRandom.cfg", {"Steps": 20000 if th else 1500},
+                workers=1, tlc_seed=ctx.seed + 7, min_states=1000, timeout=3400)
+    ctx.replay("ranges-random-replay", "ranges", r["dump"], min_cases=1000)
     r = ctx.tlc("lines", "mc/MC_Lines.tla", "mc/MC_Lines.cfg", {"K": 7 if th else 6}, min_states=9000, timeout=3000)
     ctx.replay("lines-replay", "lines", r["dump"], min_cases=9000)
     tr = ctx.record("parse-random", "parse", ["-n", 30000 if th else 2500, "-maxlen", 80])
